@@ -33,6 +33,9 @@ fn prop_by_id(id: &str) -> Option<Box<dyn Prop>> {
 }
 
 fn main() {
+    // rsass' CargoLoader resolves everything against CARGO_MANIFEST_DIR: the directory of the root
+    // file inside the simulated tree (c04/c39 run it over SimFs; see loader::run_job_real)
+    std::env::set_var("CARGO_MANIFEST_DIR", format!("{}/w", loader::SIMROOT));
     // All simulation work happens on a thread with a large stack so that deep
     // (but bounded) recursion in rsass is not mistaken for non-termination.
     vcommon::driver::run_main(prop_by_id, 1 << 30, hist::extra)
